@@ -330,14 +330,14 @@ def main():
 EXPLANATION = (
     'Proved in Lean for ALL entry lists, contexts and sane environments (Props/C16.lean): message_tags_eq / check_messages_eq (the imperative model of check_messages with its '
     'accumulators msgid_counter and found_unusual_characters, of _check_message_flags and of the XML gate = the rule set Spec.MessageRules, per entry and file-level, with extras and order), '
-    'message_flags_eq, trace_at, and one theorem per tag read off the rule set: duplicate_message_definition_iff, empty_file_iff / empty_file_po_iff, translation_in_template_iff, '
+    'message_flags_eq, trace_at, and one theorem per tag read off the rule set: duplicate_message_definition_iff, duplicate_message_definition_file_iff, empty_file_iff / empty_file_po_iff, translation_in_template_iff, '
     'inconsistent_leading_newlines_iff, inconsistent_trailing_newlines_iff (+ considered_mem), partially_translated_message_iff, conflict_marker_in_translation_iff, '
     'unusual_character_in_translation_iff (+ mem_reported, mem_seenBefore, mem_unusualTags, reported_sorted), stray_previous_msgid_iff, unknown_message_flag_iff (+ flag_kind_known), '
     'duplicate_message_flag_iff, conflicting_message_flags_iff, redundant_message_flag_iff, invalid_range_flag_iff, range_flag_without_plural_string_iff, malformed_xml_iff, malformed_xml_only_if, '
     'obsolete_exempt, header_entry_exempt, fuzzy_exemptions, clean_entry_silent, clean_catalog_silent, msg_nocrash, live_env_sane, live_message_tags; pins emitted_tags_pin, unusual_class_pin, '
     'unusual_class_documented, conflict_marker_pin, flag_syntax_pin, xml_gate_pin, checker_keys_pin. Test-level (correspondence, not proof): that the model IS the Python code (streams check-messages, '
     'check-message-flags, spec-vs-code, message-repr, re-unusual, re-marker, re-gate, re-range, e2e-files), expat, the format checkers behind the dispatch (C14), tags._escape inside message_repr (C02). '
-    'In duplicate_message_flag_iff the range part is stated through the dictionary rangeDict (one range with total multiplicity > 1), not yet as a count over the flag list.')
+    'Declarative readings of the scanners and flag shapes: duplicate_message_flag_decl_iff, conflict_marker_line_iff, lines_spec, range_flag_grammar, format_flag_shape_live, find_unusual_iff.')
 
 if __name__ == '__main__':
     if len(sys.argv) > 1 and sys.argv[1] == '--sequence':
